@@ -132,7 +132,7 @@ def check(tier, seed, replay=None):
         PC.expect_dev(chk, "DevBreakEndsFileOnly", "split", 2, "BreakEndsReading")
         # the same at the level of the whole run (Run.tla): operands that are files and directories in every listing order, --skip / --take in front of
         # the three shapes - nothing is pulled beyond the look-ahead byte of the value that completes the rows, no later operand is opened
-        r = tlc("MC_Run", "MC_Run.cfg", workers=8, timeout=1800, heap="6g")
+        r = tlc("MC_Run", "MC_Run.cfg" if tier == "quick" else "MC_Run_thorough.cfg", workers=8 if tier == "quick" else 14, timeout=3600, heap="6g" if tier == "quick" else "16g")
         tlc_ok(r, "MC_Run")
         if r.violated:
             raise ToolError("the specification itself violates %s (MC_Run)" % r.violated)
